@@ -244,3 +244,12 @@ func VerifEncodeDeltaRaw(id, addr string, senderCount int, sections []VerifRawSe
 	}
 	return buf.Bytes()
 }
+
+// ---- real scheduler on injected listeners (SIMA) ----
+
+// VerifSeed makes the node aware of the given peers (as a digest from a seed
+// node would), without the TCP join.
+func (g *Gossip) VerifSeed(d digest) { g.state.ApplyDigest(d) }
+
+// VerifCompactLocal runs a local compaction with the given threshold.
+func (g *Gossip) VerifCompactLocal(threshold int) { g.state.CompactLocal(threshold) }
